@@ -66,6 +66,8 @@ package runner
 //@   ensures #C14.up-before-anything err == nil ==> onceDone[c.onceUp] && c.startupError == nil
 
 //@ func (*ExecutionContext).After
+//@   effect no lock-held at return
+//@   effect no may-block while lock-held
 //@   requires ctxOK(c)
 //@   modifies runN, runJob, runErr, bufLen, interp.Runner.Dir, interp.Runner.Env
 //@   ensures #log-prefix runN >= old(runN) && (forall i int :: i < old(runN) ==> runJob[i] == old(runJob[i]) && runErr[i] == old(runErr[i]))
@@ -73,6 +75,8 @@ package runner
 //@     invariant #same c == c0 && ctxOK(c)
 //@     invariant #log-prefix runN >= old(runN) && (forall i int :: i < old(runN) ==> runJob[i] == old(runJob[i]) && runErr[i] == old(runErr[i]))
 //@ func (*ExecutionContext).Down$1
+//@   effect no lock-held at return
+//@   effect no may-block while lock-held
 //@   requires ctxOK(c)
 //@   modifies runN, runJob, runErr, bufLen, interp.Runner.Dir, interp.Runner.Env
 //@   ensures #log-prefix runN >= old(runN) && (forall i int :: i < old(runN) ==> runJob[i] == old(runJob[i]) && runErr[i] == old(runErr[i]))
@@ -80,6 +84,8 @@ package runner
 //@     invariant #same c == c0 && ctxOK(c)
 //@     invariant #log-prefix runN >= old(runN) && (forall i int :: i < old(runN) ==> runJob[i] == old(runJob[i]) && runErr[i] == old(runErr[i]))
 //@ func (*ExecutionContext).Down
+//@   effect no lock-held at return
+//@   effect no may-block while lock-held
 //@   requires ctxOK(c)
 //@   modifies runN, runJob, runErr, bufLen, interp.Runner.Dir, interp.Runner.Env, onceDone
 //@   ensures #log-prefix runN >= old(runN) && (forall i int :: i < old(runN) ==> runJob[i] == old(runJob[i]) && runErr[i] == old(runErr[i]))
@@ -219,6 +225,8 @@ package runner
 // cancellation has not begun, un-registers exactly once on every path, and once cancellation has
 // begun it returns the context's error without resolving a context, creating output or running anything
 //@   effect no lock-held at contextForTask
+//@   effect no may-block while lock-held
+//@   effect no lock-held at return
 //@   ensures #C12.nothing-starts-after-cancellation old(r.canceling) ==> result != nil && calls(contextForTask) == 0 && calls(NewTaskOutput) == 0 && calls(checkTaskCondition) == 0 && calls(before) == 0 && calls(execute) == 0 && calls(after) == 0
 //@   ensures #C12.registered-runs-unregister calls(Add) == calls(Done) && calls(Add) <= 1
 //@   callsite Add
@@ -279,6 +287,9 @@ package runner
 //@   nomod
 
 // ---- execution-context hooks (C14)
+// lock discipline of the hooks (C04 / C03): a hook never returns holding the context's mutex (the next task
+// sharing the context would wait for this one to end) and never blocks — in particular never locks again —
+// while it holds it
 //@ pred ctxOK(c *ExecutionContext) := c != nil && c.Env != nil && c.Variables != nil
 //@ func (*ExecutionContext).runServiceCommand
 //@   requires ctxOK(c)
@@ -288,6 +299,8 @@ package runner
 
 // the body handed to onceUp.Do: runs every `up` command; a failure of any of them is remembered
 //@ func (*ExecutionContext).Up$1
+//@   effect no lock-held at return
+//@   effect no may-block while lock-held
 //@   ghostlocal anyFailed bool
 //@   requires ctxOK(c)
 //@   modifies runN, runJob, runErr, bufLen, interp.Runner.Dir, interp.Runner.Env, c.startupError
@@ -303,6 +316,8 @@ package runner
 //@     ghost anyFailed = anyFailed || result != nil
 
 //@ func (*ExecutionContext).Up
+//@   effect no lock-held at return
+//@   effect no may-block while lock-held
 //@   requires ctxOK(c)
 //@   modifies runN, runJob, runErr, bufLen, interp.Runner.Dir, interp.Runner.Env, c.startupError, onceDone
 //@   ensures #log-prefix runN >= old(runN) && (forall i int :: i < old(runN) ==> runJob[i] == old(runJob[i]) && runErr[i] == old(runErr[i]))
@@ -310,6 +325,8 @@ package runner
 //@   ensures #C14.up-once old(onceDone[c.onceUp]) ==> runN == old(runN) && c.startupError == old(c.startupError)
 //@   ensures #C14.up-error-to-every-caller result == c.startupError
 //@ func (*ExecutionContext).Before
+//@   effect no lock-held at return
+//@   effect no may-block while lock-held
 //@   requires ctxOK(c)
 //@   modifies runN, runJob, runErr, bufLen, interp.Runner.Dir, interp.Runner.Env
 //@   ensures #log-prefix runN >= old(runN) && (forall i int :: i < old(runN) ==> runJob[i] == old(runJob[i]) && runErr[i] == old(runErr[i]))
@@ -334,6 +351,8 @@ package runner
 //@   ensures #C12.marked-runners-are-cancelled forall x *TaskRunner :: x != nil && x.canceling ==> ctxCancelled[x]
 //@   ensures #C12.context-cancelled-at-most-once (old(r.canceling) ==> calls(cancelFunc) == 0) && calls(cancelFunc) <= 1
 //@   effect no lock-held at Wait
+//@   effect no may-block while lock-held
+//@   effect no lock-held at return
 // the context is cancelled while the write lock is still held: a reader that sees `canceling` sees a cancelled
 // context (this is what Run's "a refused run returns an error" rests on)
 //@   effect lock-held at funcvalue
